@@ -137,6 +137,7 @@ def run(ctx):
                             ctx.violation('call-raises', {**case, 'route': route}, 'a multivector', repr(e)[:200], key=f'{route}:raises:{type(e).__name__}')
     binding_pass(ctx)
     irrational_pass(ctx)
+    call_route_pass(ctx)
     ctx.assumptions = ['sympy (simplify, expand, subs, printing) is the symbolic ring: that its zero test is sound is trusted',
                        'the call route evaluates Rational literals in floating point: compared with tolerance, never claimed exact']
 
@@ -245,3 +246,73 @@ def irrational_pass(ctx):
                     if bad:
                         ctx.violation('subs-differs', {**case, 'route': 'subs'}, {k: str(v) for k, v in num.items()}, {k: str(v) for k, v in got.items()},
                                       key=f'subs:{op}')
+
+
+def call_route_pass(ctx):
+    """evaluation by *calling*: (1) several symbolic multivectors with the same key tuple on algebras with and without a
+    wrapper, interleaved; (2) coefficients that still contain powers of sums when they are printed (string coefficients
+    such as '(a + b)**2', a non-expanding simp_func): the call must agree with sympy substitution"""
+    import sympy
+    rng = ctx.rng
+    ident = lambda f: f
+    for wrapper in (None, ident):
+        alg = make_algebra([1, 1], **({'wrapper': wrapper} if wrapper else {}))
+        u = alg.vector(name='u'); v = alg.vector(name='v')
+        mvs = {'u*v': u * v, 'v*u': v * u, 'u+v': u + v, '2u-v': 2 * u - v}
+        order = list(mvs) * 3
+        rng.shuffle(order)
+        for step, nm in enumerate(order):
+            m = mvs[nm]
+            fs = sorted(m.free_symbols, key=lambda sy: sy.name)
+            vals = {sy: Fraction(rng.randint(1, 9), rng.choice([1, 2])) for sy in fs}
+            exp = {k: float(sympy.sympify(c).subs({sy: sympy.Rational(x.numerator, x.denominator) for sy, x in vals.items()})) for k, c in zip(m.keys(), m.values())}
+            case = {'wrapper': bool(wrapper), 'multivector': nm, 'step': step}
+            ctx.case(case, tag='call-route:interleaved')
+            try:
+                r = m(*[float(vals[sy]) for sy in fs])
+                got = {k: float(c) for k, c in zip(r.keys(), r.values())}
+            except Exception as e:
+                ctx.violation('call-raises', case, exp, repr(e)[:200], key='call-route:raises')
+                continue
+            if not same({k: v for k, v in got.items() if v}, {k: v for k, v in exp.items() if v}, exact=False):
+                ctx.violation('call-differs', case, exp, got, key='call-route:interleaved')
+    exprs = ['(a + b)**2', '(a - 2*b)**3', '(a + b)**2 - (a - b)**2', '(a*b + 1)**2', '3*(a + b)**3 + a', '(a + b + c)**2', '1/(a + b)**2', '(a + b)**4']
+    for simp in (None, 'factor', 'identity'):
+        kw = {}
+        if simp == 'factor':
+            kw['simp_func'] = lambda v: sympy.factor(v) if isinstance(v, sympy.Expr) else v
+        elif simp == 'identity':
+            kw['simp_func'] = lambda v: v
+        alg = make_algebra([1, 1, 1], **kw)
+        for _ in range(6 if ctx.quick else 30):
+            ks = rng.sample(range(8), 3)
+            es = [rng.choice(exprs) for _ in ks]
+            try:
+                x = alg.multivector(keys=tuple(ks), values=list(es))
+                y = alg.multivector(keys=tuple(rng.sample(range(8), 2)), values=['a + b', 'c'])
+            except Exception as e:
+                ctx.count('call-route-construct-raises:' + type(e).__name__)
+                continue
+            for nm, m in (('x', x), ('x*y', x * y), ('x|x', x | x)):
+                fs = sorted(m.free_symbols, key=lambda sy: sy.name)
+                if not fs:
+                    continue
+                vals = {sy: Fraction(rng.randint(1, 5), rng.choice([1, 2])) * rng.choice([1, -1]) for sy in fs}
+                try:
+                    exp = {k: float(sympy.sympify(c).subs({sy: sympy.Rational(v_.numerator, v_.denominator) for sy, v_ in vals.items()})) for k, c in zip(m.keys(), m.values())}
+                except Exception:
+                    continue
+                if any(e != e or abs(e) == float('inf') for e in exp.values()):
+                    continue
+                case = {'simp_func': simp, 'keys': ks, 'coefficients': es, 'multivector': nm, 'values': {sy.name: str(v_) for sy, v_ in vals.items()}}
+                ctx.case(case, tag='call-route:powers-of-sums')
+                try:
+                    r = m(**{sy.name: float(v_) for sy, v_ in vals.items()})
+                    got = {k: float(c) for k, c in zip(r.keys(), r.values())}
+                except ZeroDivisionError:
+                    continue
+                except Exception as e:
+                    ctx.violation('call-raises', case, exp, repr(e)[:200], key='call-route:powers:raises')
+                    continue
+                if not same({k: v for k, v in got.items() if abs(v) > 1e-12}, {k: v for k, v in exp.items() if abs(v) > 1e-12}, exact=False):
+                    ctx.violation('call-differs', case, exp, got, key='call-route:powers-of-sums')
